@@ -971,7 +971,8 @@ class SgzReader(object):
         header : dict
             A single header as a dictionary of headerword-value pairs
         """
-        if self.is_3d and not 0 <= index < self.n_ilines * self.n_xlines:
+        n_headers = self.n_ilines * self.n_xlines if self.is_3d else self.tracecount
+        if not 0 <= index < n_headers:
             raise IndexError(self.range_error.format(index, 0, self.tracecount))
 
         header = self.segy_traceheader_template.copy()
